@@ -41,6 +41,8 @@ def ctype(t):
         return _TYPES[t]
     if t.startswith('enum '):
         return (32, False)
+    if t in ('char *', 'unsigned char *', 'signed char *'):
+        return (64, False)      # byte pointers: address arithmetic with scale 1 (other pointers are not modelled)
     return None
 
 
